@@ -48,7 +48,7 @@ func vfReadGuarded(dst *vfSerState, data []byte) (err error, panicked interface{
 			}
 			ch <- o
 		}()
-		_, o.err = dst.read(bytes.NewReader(data))
+		_, o.err = dst.read(vfMaybeChunked(bytes.NewReader(data), dst.c.Chunk))
 	}()
 	select {
 	case o := <-ch:
